@@ -212,7 +212,8 @@ pub fn gen_history(g: &mut Genes, cfg: &HistCfg) -> Json {
                 }
             }
             2 => {
-                let a = filt(g, ra, &["any", "chardata", "text", "pi", "recent"], &[1, 6, 2, 1, 1]);
+                // (merged text nodes exist in the merged-text view only; elsewhere the filter falls back to any node)
+                let a = filt(g, ra, &["any", "chardata", "text", "pi", "recent", "expandedtext"], &[1, 6, 2, 1, 1, 2]);
                 match g.weighted(&[2, 2, 3, 3, 3, 2, 1, 2, 1]) {
                 0 => json!({"op": "set_data", "n": a, "s": pick_str(g, data)}),
                 1 => json!({"op": "append_data", "n": a, "s": pick_str(g, data)}),
